@@ -68,6 +68,16 @@ static void blk_cbc_longpad(void) {
 		char mode[40]; snprintf(mode, sizeof mode, "cbc-long-padding"); tamper(mode, cbc_open, rec, rl, SEQS[si], L);
 		vh_sample("{\"block\":\"cbc-long-padding\",\"payload_len\":%zu,\"padding_octets\":%zu}", L, (size_t)(16 - ((L + 32) % 16) + 16 * xb)); }
 }
+/* the sequence number is a 64-bit big-endian counter: every carry chain (all-ones in the low k octets), neighbours of each, and a walk over 70000 steps from
+   several starts - a record protected under the library's idea of n+1 must open under the integer n+1 and under nothing else */
+static void blk_seq(void) {
+	if (!vh_block_begin("sequence-number")) return; uint8_t lib[8], ref[8];
+	for (int k = 0; k <= 7; k++) for (int d = -2; d <= 1; d++) { if (!vh_next()) continue; uint64_t v = k == 0 ? 0 : ((k == 8 ? 0 : (1ULL << (8 * k))) - 1); v += (uint64_t)(int64_t)d; if (k == 0 && d < 0) continue; for (int i = 0; i < 8; i++) lib[i] = (uint8_t)(v >> (56 - 8 * i)); tls_seq_num_incr(lib); uint64_t w = v + 1; for (int i = 0; i < 8; i++) ref[i] = (uint8_t)(w >> (56 - 8 * i)); vh_eval(vh_mix(k * 10 + d + 60001));
+		if (memcmp(lib, ref, 8)) { vh_viol("C11:sequence-number:increment-differs-from-the-integer", "\"from\":\"%016llx\",\"got\":\"%s\",\"exp\":\"%s\"", (unsigned long long)v, vh_hex(lib, 8), vh_hex(ref, 8)); continue; }
+		/* and through a record: protected under the library's n+1, opened under the integer n+1 (must open) and under n (must not) */ static uint8_t plain[64], enc[200], out[200]; plain[0] = 23; plain[1] = 1; plain[2] = 1; plain[3] = 0; plain[4] = 20; memcpy(plain + 5, PAY, 20); size_t el = 0; venv_reset(9900 + k); if (tls_record_encrypt(&HM, &EK, lib, plain, 25, enc, &el) != 1) continue; uint8_t ty; size_t ol; uint8_t prev[8]; for (int i = 0; i < 8; i++) prev[i] = (uint8_t)(v >> (56 - 8 * i));
+		if (cbc_open(enc, el, ref, &ty, out, &ol) != 1) vh_viol("C11:sequence-number:record-does-not-open-under-the-integer-successor", "\"from\":\"%016llx\"", (unsigned long long)v); if (cbc_open(enc, el, prev, &ty, out, &ol) == 1) vh_viol("C11:sequence-number:record-opens-under-the-previous-number", "\"from\":\"%016llx\"", (unsigned long long)v); }
+	static const uint64_t ST[] = { 0, 0xfff0, 0xffffff00ULL, 0x00ffffffffffff00ULL }; for (int s0 = 0; s0 < 4; s0++) { if (!vh_next()) continue; uint64_t v = ST[s0]; for (int i = 0; i < 8; i++) lib[i] = (uint8_t)(v >> (56 - 8 * i)); int bad = 0; for (int step = 0; step < 70000 && !bad; step++) { tls_seq_num_incr(lib); v++; for (int i = 0; i < 8; i++) ref[i] = (uint8_t)(v >> (56 - 8 * i)); vh_evals++; if (memcmp(lib, ref, 8)) { bad = 1; vh_viol("C11:sequence-number:walk-differs-from-the-integer", "\"start\":\"%016llx\",\"step\":%d,\"got\":\"%s\"", (unsigned long long)ST[s0], step, vh_hex(lib, 8)); } } vh_nontriv++; }
+}
 static void blk_gcm(void) {
 	if (!vh_block_begin("gcm")) return; static uint8_t plain[16400 + 8], enc[17000], out[17000]; static const uint8_t TYPES[] = { 21, 22, 23 }; static const size_t PADS[] = { 0, 1, 15, 16, 255 };
 	for (size_t L = 0; L <= 16384; L++) { if (!vh_next()) continue; if (!vh_thorough && !quick_len(L)) continue; if (vh_deadline_hit()) { vh_capped = 1; continue; }
@@ -143,4 +153,4 @@ static void blk_live(void) {
 			if (bad || got != 62) { snprintf(key, sizeof key, "C11:live:%s:interleaved-%s:%s", PNAME[p], t ? "handshake-record" : "warning-alert", bad ? "delivered-bytes-not-a-prefix-of-the-sent-stream" : "application-records-behind-it-not-delivered"); vh_viol(key, "\"dir\":\"%s\",\"before-record\":%d,\"delivered\":%zu,\"sent\":62", dir ? "c2s" : "s2c", idx, got); } } }
 }
 int main(int argc, char **argv) { vh_init(argc, argv); app_fill(); setup(); LO = mmap(NULL, sizeof *LO, PROT_READ | PROT_WRITE, MAP_SHARED | MAP_ANONYMOUS, -1, 0); for (int p = 0; p < 3; p++) if (build_side(&LSRV[p], p, 0, 1, NULL) != 1 || build_side(&LCLI[p], p, 1, 1, NULL) != 1) vh_harness_error("creds");
-	if (!freopen("/dev/null", "w", stderr)) {} blk_live(); blk_piecewise(); vh_guarded("C11", blk_cbc, 60); vh_guarded("C11", blk_cbc_longpad, 60); vh_guarded("C11", blk_gcm, 60); return vh_finish(); }
+	if (!freopen("/dev/null", "w", stderr)) {} blk_live(); blk_piecewise(); vh_guarded("C11", blk_cbc, 60); vh_guarded("C11", blk_cbc_longpad, 60); vh_guarded("C11", blk_seq, 60); vh_guarded("C11", blk_gcm, 60); return vh_finish(); }
